@@ -6,6 +6,15 @@ plate / permutation = entries of the whole (exact), column swap (tolerance), con
 range, variance = 1/precision > 0, non-mutation of theta and screen, predict_*_all rows = per-theta predictions
 (exact), predict_*_avg = exact mean.  Tie: the Lean model (`Batchie.Predict`) evaluated at Float on the same
 theta and ids.
+
+Auditor round (a-c09-c20): screens with non-default encodings and partially observed plates, theta memory layouts,
+helpers on subsets/plates, and the call-order scenario (plates first / whole / plates again on a fresh Screen) were added.
+Mutants tried on a scratch copy (all red with a replay unless noted): control not zeroed separately for V0/V1/V2 x column 0/1,
+interaction sample column 0/1, predict_single_drug V0; ids sorted / overwritten in place (S2 seed); in-place `+=` into theta.W0;
+`observation_mask[:] = True` and in-place `treatment_doses` write inside predict (the former was MISSED before partially observed
+screens were generated); module-level caches keyed by screen size (predict) and by (holder, size) (predict_viability_avg: caught by
+the helper-on-subset oracle); avg skipping the last sample; variance stack reusing sample 0; clip bound changed in the single-agent path;
+interaction viability clipping the factors instead of the product.
 """
 import math
 
